@@ -61,6 +61,11 @@ let rfields (r : rres) =
        Printf.sprintf "%s %s %s 0 - - ? ?" (match o.r_obj with JNull -> "NULL" | _ -> "TREE")
          (b01 (o.r_msg <> MNone)) (string_of_z o.r_reads), live)
 
+let oflags_str (fl : oflags) =
+  (match fl.o_acc with O_RDONLY -> "R" | O_WRONLY -> "W" | O_RDWR -> "B")
+  ^ (if fl.o_creat then "C" else "") ^ (if fl.o_trunc then "T" else "")
+  ^ (if fl.o_append then "A" else "") ^ (if fl.o_excl then "X" else "")
+
 let stand_in _ _ = None
 let app_ok _ _ = true
 
@@ -89,6 +94,41 @@ let run line =
     let ser = bytes_of_hex serhex in
     let ((r, opens), closes) = object_to_file_ext (op = "1") (wpad (parse_sched sc) ser) (tree = "n") (Some ser) in
     Printf.sprintf "FW %s %s %s 0" (wfields r ser) (string_of_z opens) (string_of_z closes)
+  | ["P"; init; steps] ->
+    let name c = [z_of_int (Char.code c)] in
+    let fs0 : fsys =
+      if init = "-" then [] else
+      List.map (fun it -> (name it.[0], bytes_of_hex (String.sub it 2 (String.length it - 2))))
+        (String.split_on_char ',' init) in
+    let file fs p = match fs_get fs p with Some c -> hex_of_bytes c | None -> "ABSENT" in
+    let fs = ref fs0 in
+    let outs = List.map (fun st ->
+        match String.split_on_char '/' st with
+        | [("w" | "v"); pc; tree; _fl; sc; serhex] ->
+          let p = name pc.[0] and ser = bytes_of_hex serhex in
+          let (((r, fs'), opens), closes) =
+            object_to_file_fs None !fs p (wpad (parse_sched sc) ser) (tree = "n") (Some ser) in
+          fs := fs';
+          (match r with
+           | WRet (rc, msg, _, calls) ->
+             Printf.sprintf "w %s %s %s %s %s %s %s" (string_of_z rc) (b01 msg) (string_of_z calls)
+               (string_of_z opens) (string_of_z closes)
+               (if opens = Z0 then "-" else oflags_str tO_FILE_FLAGS) (file fs' p)
+           | _ -> "w NORETURN")
+        | ["r"; pc; sc] ->
+          let p = name pc.[0] in
+          let data = match fs_get !fs p with Some c -> c | None -> [] in
+          let (((r, fs'), opens), closes) =
+            object_from_file_fs None !fs p stand_in app_ok (rpad (parse_sched sc) data) in
+          fs := fs';
+          let (f, _) = rfields r in
+          Printf.sprintf "r %s %s %s %s %s" f (string_of_z opens) (string_of_z closes)
+            (oflags_str fROM_FILE_FLAGS) (file fs' p)
+        | _ -> failwith "fd step") (String.split_on_char ';' steps) in
+    let dump = if !fs = [] then "-" else
+        String.concat "," (List.map (fun (k, c) ->
+            Printf.sprintf "%c=%s" (Char.chr (int_of_z (List.hd k))) (hex_of_bytes c)) !fs) in
+    String.concat " | " (outs @ [Printf.sprintf "end 0 %s" dump])
   | ["S"; _; _] -> "S ?"
   | _ -> failwith "fd line"
 
